@@ -323,3 +323,79 @@ Proof.
     destruct (ops_spec input Hwf ops (ops_fuel input sch) r' false (skipn n input) Hops Hr1 Hrel ltac:(unfold ops_fuel, default_fuel; lia) Hcap') as [H1 _].
     destruct (run_ops (ops_fuel input sch) ops r') as [l rf]. rewrite items_cons. f_equal. exact H1.
 Qed.
+
+(* ---------- a buffer that is too small, for any list of next/read calls ---------- *)
+Theorem ops_full input : wf_bytes input -> forall ops fuel r start sref,
+  Forall tok_op ops -> rok input r -> 0 < cap (rbw r) -> srel r start sref -> length input + 2 <= fuel ->
+  cap (rbw r) < snd (rr start sref) ->
+  exists pre suf,
+    (items_of (run_ops fuel ops r) = map XTok pre /\ length pre = length ops \/
+     items_of (run_ops fuel ops r) = map XTok pre ++ [XErr E_BufferFull]) /\
+    fst (fst (rr start sref)) = map OTok pre ++ suf /\ suf <> [].
+Proof.
+  intros Hwf. induction ops as [|o ops IH]; intros fuel r start sref Hops Hrok Hcpos Hrel Hfuel Hbig.
+  { exists [], (fst (fst (rr start sref))). split; [left; split; reflexivity|]. split; [reflexivity|apply rr_nonempty]. }
+  inversion Hops as [|o' ops' Ho Hops']; subst o' ops'.
+  pose proof (rok_pos input r Hrok) as Hpos.
+  assert (Hrest : length (rest (rrd r)) <= length input).
+  { unfold stream_of in Hpos. rewrite app_length in Hpos. lia. }
+  assert (Htk : fst (tk (startb r) (stream_of r)) = fst (tk start sref) /\
+                snd (tk (startb r) (stream_of r)) <= snd (tk start sref) /\
+                snd (tk start sref) <= Nat.max 1 (snd (tk (startb r) (stream_of r)))).
+  { destruct Hrel as [[-> ->]|(-> & -> & Hp)]; [split; [reflexivity|lia]|].
+    rewrite (startb_pos r Hp), tk_space. split; [reflexivity|]. rewrite snd_bump_max. lia. }
+  destruct Htk as (Htk1 & Htk2 & Htk3).
+  assert (Hrun : run_ops fuel (o :: ops) r =
+                 match (match o with ORead => reader_read fuel r | _ => reader_next fuel r end) with
+                 | NTok t r' => let '(l, rf) := run_ops fuel ops r' in ((XTok t, reader_position r') :: l, rf)
+                 | NEnd r' => ([(XEnd, reader_position r')], r')
+                 | NErr e r' => ([(XErr e, reader_position r')], r')
+                 | NCrash s => ([(XCrash s, 0)], r)
+                 end).
+  { destruct o; [reflexivity|reflexivity|destruct Ho]. }
+  rewrite Hrun. clear Hrun.
+  destruct (le_lt_dec (snd (tk start sref)) (cap (rbw r))) as [Hfit|Hnofit].
+  - assert (Hcap1 : capok (rbw r) (rrd r) (snd (tk (startb r) (stream_of r)))) by (right; lia).
+    pose proof (next_opt_step input fuel r Hwf Hrok ltac:(lia) Hcap1) as Hstep.
+    rewrite Htk1 in Hstep. rewrite rr_unfold in Hbig |- *.
+    destruct (tk start sref) as [[t s'| |k] nd0] eqn:Etk; cbn [fst snd stepres_ws stepres] in *; [|lia|lia].
+    destruct Hstep as (r' & Hno & Hrok' & Hs' & Hc' & Hr').
+    assert (Hcall : (match o with ORead => reader_read fuel r | _ => reader_next fuel r end) = NTok t r').
+    { unfold reader_read, reader_next. rewrite Hno. destruct o; reflexivity. }
+    rewrite Hcall.
+    pose proof (rok_pos input r' Hrok') as Hpos'.
+    assert (Hp' : reader_position r' > 0).
+    { destruct Hs' as [<- | ->]; destruct Hrel as [[-> ->]|(-> & -> & Hp)]; cbn [length] in *;
+        pose proof (tk_tok_shrinks _ _ _ t _ nd0 (le_n _) Etk) as Hshr; cbn [length] in *; lia. }
+    assert (Hrel' : srel r' false s').
+    { destruct Hs' as [<- | ->]; [left; split; [reflexivity|symmetry; apply startb_pos; exact Hp']|right; auto]. }
+    specialize (IH fuel r' false s' Hops' Hrok' ltac:(lia) Hrel' Hfuel).
+    destruct (rr false s') as [[l rem] m] eqn:Err. cbn [fst snd] in *.
+    destruct IH as (pre & suf & Hitems & Hl & Hsuf); [lia|].
+    destruct (run_ops fuel ops r') as [l2 rf] eqn:Erun. rewrite items_cons.
+    exists (t :: pre), suf. cbn [map app length]. rewrite Hl. split; [|auto].
+    destruct Hitems as [[Hi Hlen]|Hi]; [left; split; [f_equal; exact Hi|f_equal; exact Hlen]|right; f_equal; exact Hi].
+  - assert (Hbig1 : cap (rbw r) < snd (tk (startb r) (stream_of r))) by lia.
+    destruct (next_opt_full input fuel r Hwf Hrok Hcpos ltac:(lia) Hbig1) as [r' Hno].
+    assert (Hcall : (match o with ORead => reader_read fuel r | _ => reader_next fuel r end) = NErr E_BufferFull r').
+    { unfold reader_read, reader_next. rewrite Hno. destruct o; reflexivity. }
+    rewrite Hcall. exists [], (fst (fst (rr start sref))).
+    split; [right; reflexivity|]. split; [reflexivity|apply rr_nonempty].
+Qed.
+
+Theorem ops_stream_full : forall input sch capv ops,
+  wf_bytes input -> no_fail sch -> 0 < capv < need input -> Forall tok_op ops ->
+  exists pre suf,
+    (items_of (stream_ops capv sch input ops) = map XTok pre /\ length pre = length ops \/
+     items_of (stream_ops capv sch input ops) = map XTok pre ++ [XErr E_BufferFull]) /\
+    tokens_of input = map OTok pre ++ suf /\ suf <> [].
+Proof.
+  intros input sch capv ops Hwf Hnf Hneed Hops. unfold stream_ops, tokens_of, need, ref_tokens in *.
+  change (ref_run (S (length input)) true input) with (rr true input) in *.
+  apply (ops_full input Hwf ops _ _ true input Hops).
+  - split; [|split; [exact Hnf|right; cbn; lia]]. exists []. cbn. auto.
+  - unfold reader_new, bw_new. cbn [rbw cap]. lia.
+  - left. split; reflexivity.
+  - unfold ops_fuel, default_fuel. lia.
+  - unfold reader_new, bw_new. cbn [rbw cap]. lia.
+Qed.
